@@ -1164,16 +1164,28 @@ def rule_r9(chk, prog):
                       'carries on as if the output file had been written',
                       loc=m.loc(bad[0] if bad else t), nontrivial=True)
     io = prog.mod('nodeio')
-    f = io.func('write_smtlib_to_file')
-    for h in ast.walk(f):
-        if isinstance(h, ast.ExceptHandler):
-            n += 1
-            last = h.body[-1] if h.body else None
-            ok = isinstance(last, ast.Raise)
-            chk.check('C05.R9', 'nodeio.write_smtlib_to_file', h, ok,
-                      'the handler around the write of the output file does '
-                      'not end in "raise": the failure is swallowed',
-                      loc=io.loc(h), nontrivial=True)
+    io.func('write_smtlib_to_file')  # anchor
+    for q, f in io.funcs.items():
+        if 'write_smtlib' not in q or '<locals>' in q:
+            continue
+        for h in ast.walk(f):
+            if isinstance(h, ast.ExceptHandler):
+                n += 1
+                last = h.body[-1] if h.body else None
+                leaves = [x for b in h.body for x in ast.walk(b)
+                          if isinstance(x, (ast.Return, ast.Continue,
+                                            ast.Break))]
+                ok = isinstance(last, ast.Raise) and not leaves
+                chk.check('C05.R9', f'nodeio.{q}', h, ok,
+                          'the handler around the write of the file does '
+                          'not re-raise on every path ('
+                          + (f'"{unparse(leaves[0])}"' if leaves else
+                             'it does not end in "raise"')
+                          + '): the failure is turned into a value that '
+                          'callers are free to ignore, and the code that '
+                          'ran the write carries on as if the file held '
+                          'what it was given', loc=io.loc(h),
+                          nontrivial=True)
     chk.floor('C05.R9', 'finally blocks and writer handlers', n, 1)
 
 
